@@ -110,6 +110,16 @@ func RunParent(prop, tier string, seed uint64, only string, onlyBatch int, exe, 
 	if chk.ChildTimeout != nil {
 		timeout = chk.ChildTimeout(tier)
 	}
+	// The watchdog is no verdict (a firing is inconclusive unless confirmed), so
+	// it only has to be generous: on a machine shared with other jobs a thorough
+	// child was seen to need more than its 25 minutes. Runaway executions are
+	// ended much earlier by the step envelopes and the resource guards.
+	if floor := 45 * time.Minute; tier != "thorough" && timeout < floor {
+		timeout = floor
+	}
+	if floor := 4 * time.Hour; tier == "thorough" && timeout < floor {
+		timeout = floor
+	}
 	par := 16
 	if chk.MaxParallel > 0 {
 		par = chk.MaxParallel
